@@ -393,7 +393,12 @@ def into_data(val: Convertible, ty: t.Optional[IntoConverter] = None, *,
 
     try:
         conv = make_converter(ty, ConverterHandlers.make(custom))
-        assert not hasattr(conv.into_data, '_original')  # hack to not use the default into_data implementation here
+        if hasattr(conv.into_data, '_original'):
+            # `conv` has no serializer of its own (e.g. `Any`, `None`, `Literal`): the default
+            # implementation serializes by the runtime type of `val`. Do that here, unless
+            # `ty` already is the runtime type (which would recurse forever).
+            assert ty is not type(val)
+            return into_data(val, None, custom=custom)
     except (TypeError, AssertionError):
         raise TypeError(f"Can't convert type '{type(val)}' into data.") from None
 
